@@ -47,7 +47,9 @@ pub fn run(seed: u64, n: usize, out: &mut Out, tier: &str) {
     // URLs is that the host the patterns are anchored to is the host of the URL as written (it starts after the
     // LAST `@` of the authority) and that `||host^` finds it
     let mut with_userinfo: Vec<Req> = vec![];
-    for (ui, h, p) in [("u@", "a.b", "/a"), ("u:p@", "a.b", "/ab"), ("u:p@ss@", "a.b", "/a"), ("x.y@", "b.a", "/a.b"), ("u@x@y@", "a.a.b", "/b.a"), ("@", "a.b", "/a")] {
+    for (ui, h, p) in [("u@", "a.b", "/a"), ("u:p@", "a.b", "/ab"), ("u:p@ss@", "a.b", "/a"), ("x.y@", "b.a", "/a.b"), ("u@x@y@", "a.a.b", "/b.a"), ("@", "a.b", "/a"),
+                       // a fully qualified host (trailing root dot) is the host as written, dot included
+                       ("", "a.b.", "/a"), ("u@", "b.a.", "/ab")] {
         if let Some(q) = make_req(&format!("https://{}{}{}", ui, h, p), &format!("https://{}/", h), "script") {
             let line = format!("||{}^", h);
             if let Some(mut pr) = parse_all(&[line.clone()]).into_iter().next() {
